@@ -313,6 +313,28 @@ def d5(cx: Cx, ob: Ob) -> None:
     # context extraction helper
     ch = cx.fn(f"{API}._converter_from_validation_info", ob.id)
     cs = cx.summary(ch, ob.id)
+    ctxattr = ("attr", ("param", ch.params[0].name), "context")
+    truthy_use = False
+    for t, ev, ctx in cs.all_terms():
+        for x in subterms(t):
+            if op(x) == "or" and x[1] and x[1][0] == ctxattr:
+                truthy_use = True
+            if op(x) == "ifexp" and x[1] == ctxattr:
+                truthy_use = True
+        if ev.kind == "guard" and ev.a == ctxattr:
+            truthy_use = True
+    if truthy_use:
+        conv_cls = cx.model.cls(CONV, ob.id)
+        for dunder in ("__len__", "__bool__"):
+            mth = cx.model.find_method(conv_cls, dunder)
+            if mth is not None:
+                ob.violate(
+                    mth.qualname,
+                    mth.where,
+                    f"Converter defines {dunder} while _converter_from_validation_info tests `info.context` by truthiness: a converter without records is falsy, is replaced by {{}} and validation silently proceeds without a converter - unknown prefixes are accepted",
+                    witness="Reference.model_validate('nope:1', context=Converter([])) succeeds",
+                    detail=f"falsy-converter:{dunder}",
+                )
     for t, ctx in cs.returns():
         isconv = any(g.kind == "guard" and g.b is True and op(g.a) == "call" and callee_name(g.a) == "isinstance" and "Converter" in show(g.a[2][1]) for g in ctx.guards)
         if isconv and not (op(t) == "call" and callee_name(t) == "or") and op(t) not in ("or", "attr", "bv") and not any(x == ("attr", ("param", ch.params[0].name), "context") for x in subterms(t)):
@@ -373,10 +395,17 @@ def d7(cx: Cx, ob: Ob) -> None:
         return None
 
     wd = rd = None
+    wcall = rcall = None
     for c, ev, ctx in ws.calls("writer"):
         wd = dict(c[3]).get("delimiter")
+        wcall = c
     for c, ev, ctx in rs.calls("reader"):
         rd = dict(c[3]).get("delimiter")
+        rcall = c
+    if wcall is not None and rcall is not None:
+        from ..rules import csv_agreement
+
+        csv_agreement(ob, w, r, wcall, rcall, "write_triples / read_triples")
     ob.site(f"{w.where} {w.qualname}", f"delimiter {show(wd) if wd else 'default'}")
     ob.site(f"{r.where} {r.qualname}", f"delimiter {show(rd) if rd else 'default'}")
     if wd != rd:
